@@ -114,11 +114,22 @@ class Interp:
                         val = repr(val)
                     parts.append(format(val, spec))
             return "".join(parts)
-        if isinstance(node, ast.BinOp) and isinstance(node.op, ast.Add):
+        if isinstance(node, ast.BinOp) and isinstance(node.op, (ast.Add, ast.Sub, ast.Mult, ast.FloorDiv, ast.Mod)):
             a, b = self.ev(node.left), self.ev(node.right)
             if isinstance(a, Unknown) or isinstance(b, Unknown):
-                return Unknown("sum")
-            return a + b
+                return Unknown("arith")
+            try:
+                if isinstance(node.op, ast.Add):
+                    return a + b
+                if isinstance(node.op, ast.Sub):
+                    return a - b
+                if isinstance(node.op, ast.Mult):
+                    return a * b
+                if isinstance(node.op, ast.FloorDiv):
+                    return a // b
+                return a % b
+            except TypeError as exc:
+                raise AnalysisError(f"guard language: cannot evaluate {text!r}: {exc}") from exc
         if isinstance(node, ast.Subscript):
             base = self.ev(node.value)
             if isinstance(base, Unknown):
